@@ -101,6 +101,27 @@ theorem bytes_len16 (b : Bytes) (h : b.length = 16) :
   | [x0, x1, x2, x3, x4, x5, x6, x7, x8, x9, x10, x11, x12, x13, x14, x15], _ =>
     exact ⟨x0, x1, x2, x3, x4, x5, x6, x7, x8, x9, x10, x11, x12, x13, x14, x15, rfl⟩
 
+/-- copying a list of encodings one after the other -/
+theorem copy_pieces (ws : List Bytes) :
+    piecesBytes (ws.map pCopy) = ws.flatten ∧ piecesLen (ws.map pCopy) = ws.flatten.length ∧
+      ∀ p ∈ ws.map pCopy, p.Tight := by
+  induction ws with
+  | nil => exact ⟨rfl, rfl, by simp⟩
+  | cons w ws ih =>
+    obtain ⟨i1, i2, i3⟩ := ih
+    refine ⟨?_, ?_, ?_⟩
+    · simp only [List.map_cons, List.flatten_cons, ← i1]; simp [piecesBytes, Piece.bytes, pCopy]
+    · simp only [List.map_cons, List.flatten_cons, List.length_append, ← i2]; simp [piecesLen, Piece.adv, pCopy]
+    · intro p hp
+      simp only [List.map_cons, List.mem_cons] at hp
+      rcases hp with rfl | hp
+      · simp [Piece.Tight, pCopy]
+      · exact i3 p hp
+
+/-- only the nil value is nil -/
+theorem isNil_eq (X : V) (h : X.isNil = true) : X = .nil := by
+  cases X <;> simp_all [V.isNil]
+
 /-! ### tactics -/
 
 /-- evaluate the decoder's reads on a slice whose backing array is an explicit concatenation -/
